@@ -52,14 +52,16 @@ type enfRun struct {
 	e   *enfWorld
 	res *l2.Result
 
-	mu     sync.Mutex
-	sights map[string]banSight
-	giveUp func() bool // optional: stop waiting for the tip (the oracle has what it needs)
-	polls  atomic.Int64
-	rounds atomic.Int64
-	stall  atomic.Int64 // max scheduling gap seen by the stall detector (ns)
-	stop   chan struct{}
-	wg     sync.WaitGroup
+	mu           sync.Mutex
+	sights       map[string]banSight
+	syncSeq      int64           // log length once the initial sync was complete (0 = never)
+	bannedAtSync map[string]bool // addresses seen banned by then
+	giveUp       func() bool     // optional: stop waiting for the tip (the oracle has what it needs)
+	polls        atomic.Int64
+	rounds       atomic.Int64
+	stall        atomic.Int64 // max scheduling gap seen by the stall detector (ns)
+	stop         chan struct{}
+	wg           sync.WaitGroup
 }
 
 // startPoller polls IsBanned for every address every few milliseconds to put
@@ -271,6 +273,18 @@ func EnforceScenario(seed int64, k int, res *l2.Result) {
 
 	// Phase 1: initial sync (most lies about filter headers are told here).
 	synced := x.awaitTip(syncWatchdog, 3*time.Second)
+	if synced {
+		// The sync point: whatever lie went into the filter headers the
+		// client has now committed was judged by it before this moment.
+		x.settle()
+		x.mu.Lock()
+		x.syncSeq = w.Log.Len()
+		x.bannedAtSync = map[string]bool{}
+		for a := range x.sights {
+			x.bannedAtSync[a] = true
+		}
+		x.mu.Unlock()
+	}
 
 	// Late peers come in now (a late liar can only show the false previous
 	// filter header its lie leads to, at the next announced block).
@@ -528,6 +542,7 @@ type peerEnd struct {
 	LieTold     string   `json:",omitempty"` // how the lie was told: "", "cfheaders", "cfheaders-prev", "cfcheckpt", "cfcheckpt-only"
 	LieRounds   int      `json:",omitempty"` // checkpoint-only liar: cfcheckpt messages with the false checkpoint it sent
 	Detectable  string   `json:",omitempty"` // why the client could see the conflict ("" = it could not)
+	DetectSeq   int64    `json:",omitempty"` // log Seq of the first message that made it visible
 	BadServed   int      `json:",omitempty"` // mutated blocks sent in answer to getdata
 	BadPrompt   int      `json:",omitempty"` // ... of which promptly
 	Unanswered  []string `json:",omitempty"`
@@ -547,6 +562,12 @@ type enfEnd struct {
 	Polls         int64
 	Peers         []*peerEnd
 	conflictsSeen bool
+}
+
+func (pe *peerEnd) noteDetect(seq int64) {
+	if pe.DetectSeq == 0 || seq < pe.DetectSeq {
+		pe.DetectSeq = seq
+	}
 }
 
 func (x *enfRun) observeEnd() *enfEnd {
@@ -713,7 +734,7 @@ func (x *enfRun) lieFacts(f *enfEnd, evs []netsim.Event) {
 			if !hashTold {
 				// a consistent liar may also have shown its false checkpoint only
 				for h, k := range told {
-					if n := e.W.G.ByHash[h]; n != nil && tip.Ancestor(n.Height) == n && k == "checkpt-consistent" {
+					if n := e.W.G.Lookup(h); n != nil && tip.Ancestor(n.Height) == n && k == "checkpt-consistent" {
 						pe.LieTold = "cfcheckpt"
 					}
 				}
@@ -791,6 +812,7 @@ func (x *enfRun) lieFacts(f *enfEnd, evs []netsim.Event) {
 						lastCP := int32(e.Plan.ChainLen / 1000 * 1000)
 						if f.StoreTruth == "" && start >= lastCP+1 && start > 1 {
 							pe.Detectable = "its cfheaders carried a false previous filter header while the client's own committed filter headers are the true ones"
+							pe.noteDetect(ev.Seq)
 						}
 					}
 					if hashTold && ep.Plan.Lie.Height >= start && ep.Plan.Lie.Height < start+n {
@@ -804,6 +826,9 @@ func (x *enfRun) lieFacts(f *enfEnd, evs []netsim.Event) {
 						case pe.Detectable == "" && firstHonestCP >= 0 && firstHonestCP < ev.Seq && e.Plan.checkpointed() &&
 							int(ep.Plan.Lie.Height) <= e.Plan.ChainLen/1000*1000:
 							pe.Detectable = "an honest peer's filter checkpoints were known before the lie was told"
+						}
+						if pe.Detectable != "" {
+							pe.noteDetect(ev.Seq)
 						}
 					}
 					pend = nil
@@ -1023,6 +1048,13 @@ func (x *enfRun) judge(f *enfEnd) {
 					fmt.Sprintf("%s peer %s is banned with reason %s, expected %s: %s", pe.Label, pe.Addr, orNone(pe.StoreReason), strings.Join(mustReason, " or "), why))
 			default:
 				res.Count("enf_required_bans_found", 1)
+				if pe.DetectSeq > 0 && x.syncSeq > 0 && pe.DetectSeq <= x.syncSeq && !x.bannedAtSync[pe.Addr] {
+					violate(pe, evid.Sig("c13-enf/b/misbehaviour-banned-only-later", pe.Label, path, "recorded="+orNone(pe.StoreReason)),
+						fmt.Sprintf("%s peer %s was NOT banned when the client had completed its initial sync (log seq %d) although %s (log seq %d); it was banned only later (seen at log seq %d, reason %s), by another mechanism",
+							pe.Label, pe.Addr, x.syncSeq, why, pe.DetectSeq, pe.BanSeq, orNone(pe.StoreReason)))
+				} else if pe.DetectSeq > 0 && x.syncSeq > 0 && pe.DetectSeq <= x.syncSeq {
+					res.Count("enf_required_bans_in_place_at_sync_point", 1)
+				}
 			}
 		}
 
